@@ -172,6 +172,10 @@ func (f *faultStorage) Stat(p string) (fi os.FileInfo, err error) {
 	err = f.act("Stat:"+f.canon(p), func() error { fi, err = f.Storage.Stat(p); return err })
 	return fi, err
 }
+func (f *faultStorage) Exists(p string) (ok bool, err error) {
+	err = f.act("Exists:"+f.canon(p), func() error { ok, err = f.Storage.Exists(p); return err })
+	return ok, err
+}
 func (f *faultStorage) ReadDir(p string) (fis []os.FileInfo, err error) {
 	err = f.act("ReadDir:"+f.canon(p), func() error { fis, err = f.Storage.ReadDir(p); return err })
 	return fis, err
